@@ -5,6 +5,7 @@ S4 no verification result is discarded.
 """
 from .. import ir
 from ..analysis import And, Atom, Not, Or, cmp_formula, implies, show, peel_ty, uncond_subnodes, diverges, atoms_of
+from ..analysis import F as F_
 from ..common import (BLOCK, CORE, MSG, QC, TC, TIMEOUT, VOTE, Env, call_args, callee_paths, core_handlers,
                       effectful_fns, is_primitive_effect, iter_chain, key, msg_param_term, ordinal_keys)
 
@@ -89,14 +90,33 @@ def ok_condition(env, fn):
     t = tail_of(fn)
     if t is None:
         return None, None
-    pc = flow.pathcond(t)
-    # tail `Ok(())` adds nothing; tail `X.map_err(..)` / `X` returning a Result adds ok(X)
     ctx = env.ctx(fn)
-    tt = t
-    while tt["k"] == "mcall" and tt["name"] in ("map_err",):
-        tt = tt["recv"]
-    if tt["k"] in ("call", "mcall") and not (tt["k"] == "ctor"):
-        pc = And(pc, Atom("ok(%s)" % ctx.term(tt)))
+
+    def leaves(n):
+        """value-producing leaves of a tail expression (through blocks, if/else and match arms)"""
+        if n["k"] == "block":
+            return leaves(n["expr"]) if "expr" in n else []
+        if n["k"] == "if" and "e" in n:
+            return leaves(n["t"]) + leaves(n["e"])
+        if n["k"] == "match":
+            return [x for a in n["arms"] for x in leaves(a["body"])]
+        return [n]
+
+    def leaf_cond(e):
+        """condition under which leaf e makes the function return Ok, or None if it returns Err"""
+        if ctx.term(e).startswith("Err(") or (e["k"] == "ctor" and e["path"].endswith("::Err")):
+            return None
+        c = flow.pathcond(e)
+        ee = e
+        while ee["k"] == "mcall" and ee["name"] in ("map_err",):
+            ee = ee["recv"]
+        # `Ok(())` adds nothing; `X.map_err(..)` / `X` returning a Result adds ok(X)
+        if ee["k"] in ("call", "mcall"):
+            c = And(c, Atom("ok(%s)" % ctx.term(ee)))
+        return c
+    lc = [leaf_cond(e) for e in leaves(t)]
+    lc = [c for c in lc if c is not None]
+    pc = Or(*lc) if lc else F_
     # every OTHER way of returning Ok: `return Ok(..)` / `return <result expr>` anywhere in the body
     alts = []
     for r in ir.walk(fn.body, into_closures=False):
@@ -106,13 +126,10 @@ def ok_condition(env, fn):
         et = ctx.term(e)
         if et.startswith("Err(") or (e["k"] == "ctor" and e["path"].endswith("::Err")):
             continue
-        rpc = flow.pathcond(r)
-        ee = e
-        while ee["k"] == "mcall" and ee["name"] in ("map_err",):
-            ee = ee["recv"]
-        if ee["k"] in ("call", "mcall"):
-            rpc = And(rpc, Atom("ok(%s)" % ctx.term(ee)))
-        alts.append(rpc)
+        for e2 in leaves(e):
+            rpc = leaf_cond(e2)
+            if rpc is not None:
+                alts.append(rpc)
     if alts:
         pc = Or(pc, *alts)
     return pc, t
@@ -341,6 +358,12 @@ def s4(P, R, prefix):
                 par = pm.get(id(cur))
             consumed = False
             how = par["k"] if par else "?"
+            # the value of a block / if-else / match arm is the value of that expression: climb to where it is used
+            while par is not None and ((par["k"] == "block" and par.get("expr") is cur and par is not f.body and pm.get(id(par)) is not None)
+                                       or (par["k"] == "match" and par["scrut"] is not cur and any(a["body"] is cur for a in par["arms"]))
+                                       or (par["k"] == "if" and "e" in par and (par["t"] is cur or par["e"] is cur))):
+                cur = par
+                par = pm.get(id(cur))
             if par is not None:
                 if par["k"] == "try":
                     consumed = True
